@@ -124,6 +124,7 @@ class Exec:
         self.assumptions = set()
         self._obn = {}
         self._dedupe = set()
+        self._collector = None
         self.is_generator = any(isinstance(n, (ast.Yield, ast.YieldFrom)) for n in ast.walk(fsrc.node))
 
     # ----------------------------------------------------------- obligations
@@ -155,13 +156,33 @@ class Exec:
         self._obn = nkeys
 
     def with_sink(self, st, node, fn):
-        """Run fn() with arithmetic side conditions turned into obligations."""
-        old = E.sink
-        E.sink = lambda cond, what: self.oblige(st, cond, 'safe:' + what, node)
-        try:
+        """Run fn(); the arithmetic side conditions it raises (no-wrap, division by zero, ...) are batched into
+        ONE obligation per outermost evaluation, each guarded by the path-condition suffix current when raised."""
+        act = self._collector
+        if act is not None and act[0] is st:
             return fn()
+        n0 = len(st.pc)
+        conds = []
+
+        def sink(cond, what):
+            g = st.pc[n0:]
+            conds.append((z3.Implies(z3.And(*g), cond) if g else cond, what))
+        old_sink, old_col = E.sink, self._collector
+        E.sink, self._collector = sink, (st, conds)
+        try:
+            r = fn()
         finally:
-            E.sink = old
+            E.sink, self._collector = old_sink, old_col
+        if conds:
+            kinds = sorted({w for _, w in conds})
+            saved = st.pc[n0:]
+            del st.pc[n0:]
+            try:
+                self.oblige(st, z3.And(*[c for c, _ in conds]) if len(conds) > 1 else conds[0][0],
+                            'safe:' + '+'.join(k.replace(' ', '-') for k in kinds)[:60], node)
+            finally:
+                st.pc.extend(saved)
+        return r
 
     # ----------------------------------------------------------- truthiness
     def truth(self, v, st):
@@ -186,6 +207,62 @@ class Exec:
             n = v.n
             return n != 0 if not isinstance(n, int) else n != 0
         raise SymErr('truth of %r' % (v,))
+
+    def oracle(self, st):
+        """Context manager installing a solver-backed oracle for branch pruning under st's path condition."""
+        ex = self
+
+        class _O:
+            def __enter__(s2):
+                s2.old = E.oracle
+                sol = z3.Solver()
+                sol.set('timeout', 300)
+                for a in E.axioms:
+                    sol.add(a)
+                for c in st.pc:
+                    sol.add(c)
+
+                def ask(t, guards):
+                    sol.push()
+                    try:
+                        for g in guards:
+                            sol.add(g)
+                        sol.push()
+                        sol.add(t)
+                        r1 = sol.check()
+                        sol.pop()
+                        if r1 == z3.unsat:
+                            return False
+                        sol.add(z3.Not(t))
+                        if sol.check() == z3.unsat:
+                            return True
+                        return None
+                    finally:
+                        sol.pop()
+                E.oracle = ask
+
+            def __exit__(s2, *a):
+                E.oracle = s2.old
+        return _O()
+
+    def constant_of(self, v, st):
+        """The python int c with  pc => v == c,  if there is one (constant propagation by the solver)."""
+        if isinstance(v, int):
+            return v
+        s = z3.Solver()
+        s.set('timeout', 2000)
+        for a in E.axioms:
+            s.add(a)
+        for c in st.pc:
+            s.add(c)
+        if s.check() != z3.sat:
+            return None
+        m = s.model().eval(toint(v), model_completion=True)
+        c = m.as_signed_long() if z3.is_bv_value(m) else (m.as_long() if z3.is_int_value(m) else None)
+        if c is None:
+            return None
+        s.add(toint(v) != V.iconst(c))
+        return c if s.check() == z3.unsat else None
 
     def decide(self, c, st):
         """Concrete bool for a condition, forking the statement if undetermined."""
@@ -311,8 +388,12 @@ class Exec:
             cnt = ite(n < 0, 0, n) if not isinstance(n, int) else max(0, n)
             r = SSeq(cnt, lambda k: x, sq.kind)
         elif isinstance(ln, int) and isinstance(n, int):
-            items = [sq.get(i) for i in range(ln)] * max(0, n)
-            r = SSeq.of(items, sq.kind)
+            items = [sq.get(i) for i in range(ln)]
+            if items and all(isinstance(x, int) and x == items[0] for x in items):
+                x0 = items[0]
+                r = SSeq(ln * max(0, n), lambda k: x0, sq.kind)       # constant sequence
+            else:
+                r = SSeq.of(items * max(0, n), sq.kind)
         elif isinstance(ln, int) and ln > 0:
             cnt = ite(n < 0, 0, n)
             g = sq.get
@@ -528,8 +609,14 @@ class Exec:
             lo = None if lo is None else self.as_int(lo, st, n)
             hi = None if hi is None else self.as_int(hi, st, n)
             r = sq.slice(lo, hi)
+            if not isinstance(r.n, int):
+                c = self.constant_of(r.n, st)      # a slice whose length is a constant on this path
+                if c is not None:
+                    r = SSeq(c, r.get, r.kind)
             return self.fresh_like(base, r, st)
         j = self.index(sq, self.ev(n.slice, st), st, n)
+        if sq.kind == 'str':
+            return sq.slice(j, j + 1)          # indexing a str gives a str of length one
         return sq.get(j)
 
     def ev_JoinedStr(self, n, st):
